@@ -10,7 +10,7 @@
    - header total difficulties do not overflow (checked up front since commit a11000d);
    - block difficulties below 2^192 (a header above cannot pass the PoW check). *)
 From Coq Require Import NArith List.
-From LC Require Import Matching Difficulty LastStateProof MatchingProofs DifficultyProofs2 LastStateProofProofs ExecPanicProofs.
+From LC Require Import Matching Difficulty LastStateProof MatchingProofs DifficultyProofs2 LastStateProofProofs ExecPanicProofs HashesUpdate HashesUpdateProofs.
 Import ListNotations.
 Open Scope N_scope.
 
@@ -71,3 +71,10 @@ Theorem C10_only_documented_abort :
     site = S_LONG_FORK /\ pr_long_fork rq = true.
 Proof. exact execute_panics_only_as_documented. Qed.
 Print Assumptions C10_only_documented_abort.
+
+(* the BlockFilterHashes handler (filter protocol), as repaired by 88f14dd: whatever the start number, the parent hash,
+   the list and the client's state (finalized / cached check points, cached and per-peer hashes), the handler returns *)
+Theorem C10_block_filter_hashes_never_panics :
+  forall w start parent hs site, process w start parent hs <> Panic site.
+Proof. exact process_no_panic. Qed.
+Print Assumptions C10_block_filter_hashes_never_panics.
